@@ -33,6 +33,9 @@ def run(ctx):
     ctx.rule("R04.5", "the size error prints both numbers and the server's 400 carries that text")
     ctx.guarded("R04.1", "comparison", lambda: comparison(ctx))
     ctx.guarded("R04.3", "line-limit", lambda: line_limit(ctx))
+    from .c06 import _Remap
+    from . import c14
+    ctx.guarded("R04.3", "find", lambda: c14.find_shape(_Remap(ctx, "R04.3")))
     ctx.guarded("R04.4", "handover", lambda: handover(ctx))
     ctx.guarded("R04.5", "reporting", lambda: reporting(ctx))
     ctx.rule("R04.6", "a receive is attempted whenever the buffer has room: read_bytes rejects up front only when read_cursor >= BUFFER_SIZE")
